@@ -112,13 +112,6 @@ Definition try_enqueue (s : st) (d : nat) : st * option nat :=
     | Some _ => (s1, Some id)
     end.
 
-(* pop() *)
-Definition pop (s : st) : st * wpc :=
-  match queue s with
-  | [] => (s, WPopNil)
-  | (id, d) :: q => (set_queue s q, WPopped id d)
-  end.
-
 (* close(o.busyCh): closing a nil channel or a closed channel panics *)
 Definition close_busy (s : st) : st :=
   match busy s with
